@@ -1,5 +1,8 @@
 use core::any::TypeId;
+#[cfg(not(unimock_verif))]
 use core::sync::atomic::AtomicUsize;
+#[cfg(unimock_verif)]
+use crate::verif::AtomicUsize;
 
 use crate::alloc::{vec, BTreeMap, Vec};
 use crate::debug;
@@ -31,6 +34,11 @@ impl SharedState {
             next_ordered_call_index: AtomicUsize::new(0),
             panic_reasons: MutexIsh::new(vec![]),
         }
+    }
+
+    #[cfg(unimock_verif)]
+    pub(crate) fn verif_ordered_index(&self) -> usize {
+        self.next_ordered_call_index.peek()
     }
 
     pub fn bump_ordered_call_index(&self) -> usize {
